@@ -115,6 +115,8 @@ def random_spelling(rng, axes, choices, p_none=0.3, allow_partial=True, none_ok=
     if none_ok and r < p_none:
         return None
     k = rng.random()
+    if allow_partial and k < 0.04:
+        return {}  # a mapping naming no axis at all: everything falls through to the next level
     if k < 0.35:
         return rng.choice(choices)
     if k < 0.7 or not allow_partial or len(axes) == 1:
